@@ -508,7 +508,7 @@ where
 // (the helper thread is abandoned). Everything else keeps the stall watchdog (exit status 2).
 
 const DEADLINE_SUBS: &[&str] = &[
-    "graphs", "regression", "wide-index", "conversion", "conversion-large", "conversion-wide", "encoder", "encoder-large", "encoder-wide", "model", "degenerate-shapes", "roundtrip",
+    "graphs", "regression", "wide-index", "medium", "conversion", "conversion-large", "conversion-wide", "encoder", "encoder-large", "encoder-wide", "model", "degenerate-shapes", "roundtrip",
     "roundtrip-large", "roundtrip-fixed", "totality", "totality-fixed", "interleaver-shapes", "interleaver-random", "puncturer", "peg",
 ];
 const DEADLINE_S: u64 = 60;
